@@ -19,6 +19,7 @@ func init() {
 			"(D3) a failed evaluation always increments the counter, a successful one removes it before the session is created, and success never increments; the limiter's map is touched only under its lock; (D4) a session authenticates only when found and not expired; the expired path deletes it from the map and from the file; logout deletes the map entry first and then the file record; on start only unexpired sessions are loaded; the session map is touched only under Auth.lock. " +
 			"the database record of a session is addressed by the decoded token of the text that addresses the table entry; (D5) failure records are removed only by the expiry cleanup (on the time-is-up edge) and by the successful-login reset. " +
 			"(D3 is decided from the password evaluation onwards along the edges consistent with its outcome, so the counting may come before or after the branch that returns.) " +
+			"(D4, cont.) each stored session is loaded into an object of its own (made in the per-record code), so that tokens do not share user and expiry after a restart. " +
 			"Not decided: attempt counting (off-by-one, window of the first failure), durations and clock behaviour, bbolt durability.",
 		RuleText:    "CFG edge guards, provenance slices, must-pass ordering and lock-dominance on SSA.",
 		Assumptions: []string{"golang.org/x/crypto/bcrypt and bbolt behave as documented"},
@@ -417,7 +418,21 @@ func sessionValidity(c *Ctx, rule string) {
 		r.Undecided("C12-D4", "loadSessions", "-", "anchor not found")
 	} else {
 		nIns := 0
-		for _, f := range core.WithAnon(ls) {
+		// the loader and, when it was restructured, the new functions it calls; the table being filled is the
+		// field itself or a map of that type that the loader builds and hands back
+		loaders := core.WithAnon(ls)
+		for _, call := range core.Calls(ls) {
+			if h := core.Callee(call.Common); h != nil && core.Transparent(h) {
+				loaders = append(loaders, core.WithAnon(h)...)
+			}
+		}
+		isSessionTable := func(v ssa.Value) bool {
+			if isSessionsMap(v) {
+				return true
+			}
+			return core.TypeKey(core.ResolveCellLoad(v).Type()) == "map[string]*home.session"
+		}
+		for _, f := range loaders {
 			gL, nL := core.CondEdges(f, func(at core.Atom) (bool, bool) {
 				switch {
 				case isExpire(at.Base):
@@ -432,9 +447,36 @@ func sessionValidity(c *Ctx, rule string) {
 			})
 			sink := func(in ssa.Instruction) bool {
 				mu, ok := in.(*ssa.MapUpdate)
-				return ok && isSessionsMap(mu.Map)
+				return ok && isSessionTable(mu.Map)
 			}
-			off, ns := core.UnguardedSinks(f, sink, gL)
+			// every record gets a session object of its own: what is put into the table is made in the function
+			// (literal) that runs once per record, not a variable of the enclosing loader that all records share
+			for _, b := range f.Blocks {
+				for _, in := range b.Instrs {
+					mu, ok := in.(*ssa.MapUpdate)
+					if !ok || !isSessionTable(mu.Map) {
+						continue
+					}
+					// made in this function; when the insertion sits in a loop, made in the loop as well (in a
+					// per-record callback any allocation of the callback is per record)
+					fresh, nLeaf := true, 0
+					for _, v := range core.FlattenPhi(core.ResolveCellLoad(mu.Value)) {
+						v = core.ResolveCellLoad(v)
+						if core.IsNilConst(v) {
+							continue
+						}
+						nLeaf++
+						al, isAlloc := v.(*ssa.Alloc)
+						if !(isAlloc && al.Parent() == f && (!core.InCycle(in.Block()) || core.InCycle(al.Block()))) {
+							fresh = false
+						}
+					}
+					fresh = fresh && nLeaf > 0
+					r.Check(fresh, "C12-D4", "loaded-session-is-its-own-object:"+core.FuncKey(f), p.InstrPos(in),
+						"each stored session is loaded into an object of its own", "the sessions loaded from the file share one object (a variable outside the per-record code): after a restart every token carries the user and expiry of the record read last — an expired token keeps authenticating, or authenticates as somebody else")
+				}
+			}
+			off, ns := core.UnguardedSinksLocal(f, sink, gL) // helpers and literals are in the list themselves
 			if ns == 0 {
 				continue
 			}
